@@ -54,6 +54,19 @@ Theorem c18_ser_varbytes_roundtrip : forall (d rest : bytes),
 Proof. exact ser_varbytes_roundtrip. Qed.
 Print Assumptions c18_ser_varbytes_roundtrip.
 
+(** A stream of these encodings splits in one way only. *)
+Theorem c18_ser_varuint_prefix_free : forall (v1 v2 : N) (r1 r2 : bytes),
+  v1 < two64 -> v2 < two64 ->
+  ser_write_varuint v1 ++ r1 = ser_write_varuint v2 ++ r2 -> v1 = v2 /\ r1 = r2.
+Proof. exact ser_varuint_prefix_free. Qed.
+Print Assumptions c18_ser_varuint_prefix_free.
+
+Theorem c18_ser_varbytes_prefix_free : forall (d1 d2 r1 r2 : bytes),
+  N.of_nat (length d1) < two64 -> N.of_nat (length d2) < two64 ->
+  ser_write_varbytes d1 ++ r1 = ser_write_varbytes d2 ++ r2 -> d1 = d2 /\ r1 = r2.
+Proof. exact ser_varbytes_prefix_free. Qed.
+Print Assumptions c18_ser_varbytes_prefix_free.
+
 (** Non-vacuity: a non-minimal encoding is flagged, a minimal one is not, and a concrete write
     script reads back. *)
 Example c18_nonvacuous_irregular :
